@@ -8,10 +8,10 @@ from harness.props import C02 as c02
 from harness.props import xmicommon as xc
 
 ID = "C16"
-COQ_TARGETS = ["JsonDoc.vo", "Json.vo", "JsonProofs.vo", "JsonProofs2.vo", "JsonLoadProofs.vo", "JsonLex.vo", "CorrC02.vo", "Convert.vo", "ConvertWf.vo",
+COQ_TARGETS = ["JsonDoc.vo", "Json.vo", "JsonProofs.vo", "JsonProofs2.vo", "JsonLoadProofs.vo", "JsonLex.vo", "JsonWf.vo", "JsonDocOk.vo", "CorrC02.vo", "Convert.vo", "ConvertWf.vo",
                "ConvertReach.vo", "ConvertInline.vo", "ConvertProofs.vo", "CorrC16.vo", "Props/C16.vo"]
 PROPS_FILE = "Props/C16.v"
-CORR_IMPORTS = "Base Heap Schema Canon Lex JsonDoc Json XmiDoc Convert ConvertWf CorrC16"
+CORR_IMPORTS = "Base Heap Schema Canon Lex JsonDoc Json JsonWf XmiDoc Convert ConvertWf CorrC16"
 OPEN_SCOPES = ["string_scope", "list_scope", "Z_scope"]
 SHARD_BYTES = 180_000
 CASES_PER_SHARD = 12
